@@ -44,6 +44,8 @@ void mc_sched_point(const char *label);
 void mc_wait_readable(int fd, const char *label);
 /* a blocking poll made by a blocking-mode task (called from the shim's poll wrapper) */
 int  mc_block_poll(struct pollfd *fds, int nfds, int timeout_ms);
+/* (additive, C15) the calling task is disabled until enabled(arg) != 0: modelled mutexes, condition waits */
+void mc_wait_cond(int (*enabled)(void *), void *arg, const char *label);
 /* mark whether the step just made by the current task made progress (fairness) */
 void mc_set_progress(int progressed);
 /* name of the running task ("" when the scheduler itself runs) and its index (-1) */
